@@ -510,14 +510,16 @@ class AstInfo:
             True if it should be covered, False otherwise.
             Defaults to True if there is no conditional statement at lineno.
         """
-        for branch_node in nodes_of_class(self.ast, (ast.If, ast.For, ast.While, ast.match_case)):
+        for branch_node in nodes_of_class(
+            self.ast, (ast.If, ast.For, ast.While, ast.match_case, ast.ExceptHandler)
+        ):
             start = scope_line_range(branch_node)[0]
             if start == lineno or (
                 isinstance(branch_node, ast.If | ast.For | ast.While)
                 and lineno in self._else_lines(branch_node)
             ):
                 return self.should_cover_line(start) and (
-                    isinstance(branch_node, ast.match_case)
+                    isinstance(branch_node, ast.match_case | ast.ExceptHandler)
                     or (isinstance(branch_node, ast.If) and _has_elif_block(branch_node))
                     or (
                         isinstance(branch_node, ast.If | ast.For | ast.While)
